@@ -521,7 +521,7 @@ def implies_cmp(have, want):
     return table.get((have, want), False)
 
 
-def requirement(cx, n, facts):
+def requirement(cx, n, facts, cur=None):
     """If node n is a partial-operation site: (op name, object term, discharged?, required text).
     Returns None for non-sites."""
     unit = cx.unit
@@ -556,6 +556,18 @@ def requirement(cx, n, facts):
             ok = any(pol and isinstance(t, tuple) and t[0] == "c" and t[1] == "fcppt::variant::holds_type" and t[3] == (R,) and t[4][:1] == ty
                      for (t, pol) in facts)
             return ("variant::get_unsafe", R, ok, "holds_type<T>()")
+        if qn == "fcppt::container::grid::object::get_unsafe" and n.get("args"):
+            Gt = T.norm(unit, recv)
+            Pt = T.norm(unit, n["args"][0])
+            ok = fact_true(facts, ("c", "fcppt::container::grid::in_range", None, (Gt, Pt), ()))
+            how = "in_range(grid, pos)"
+            if not ok and cur is not None and cur.get("lambda"):
+                # per-position callback idiom: the position is the lambda's own parameter, handed in by
+                # grid::object(dim, function) / pos-range iteration for positions inside that grid
+                pids = set(p["id"] for p in cur.get("params", []))
+                if T.roots(Pt) and T.roots(Pt) <= pids:
+                    ok = True
+            return ("grid::get_unsafe", ("b", "[]", Gt, Pt), ok, "in_range(grid, pos)")
         if qn == "std::optional::operator*" or qn == "std::optional::operator->":
             R = T.norm(unit, recv)
             ok = (fact_true(facts, ("c", "std::optional::has_value", R, (), ())) or
@@ -895,7 +907,7 @@ def scan(db, functions, want=None):
     sites = []
 
     def on_site(cx, n, facts, cur):
-        r = requirement(cx, n, facts)
+        r = requirement(cx, n, facts, cur)
         if r is None:
             return
         op, obj, ok, req = r
